@@ -261,6 +261,8 @@ class Walker:
         elif k == "setpc":
             seg = self.seg()
             seg.pc = seg.tpc() + s.delta
+        elif k == "testraw":
+            pass        # a test is only assembled by `mos test`
         elif k == "align":
             seg = self.seg()
             pad = s.n - seg.tpc() % s.n if self.align_full else (-seg.tpc()) % s.n
